@@ -11,11 +11,12 @@ HAVE = os.path.exists(os.path.join(core.COQ, PROPS_FILE))
 def check(run):
     if not HAVE: run.level = 'exploration'
     run.cov['trusted_base'] += [
+        "refinement check (dvlib/refine.py + DE.ARExec): every simulated execution is replayed inside Coq, label by label, as an execution of DE.AbstractRaft from ainit (aexec, proved sound w.r.t. astep: Refine_exec_sound / Refine_trace_reaches) and the abstract state is compared with the observed terms (concrete = abstract + 1), logs and commit indexes of all nodes after every step; trusted: the observation function (obs_matches, highest-commit-index-held for a restarted node) and the probe; the label reconstruction is only a proposal that Coq accepts or refuses; steps without abstract counterpart are counted per documented class in evidence.outside_abstract_system",
         "abstract system DE.AbstractRaft (log matching proved there for every reachable state); the concrete handlers meet its guards by the node-level theorems C08 (contiguous requests cut from the leader's log), C19 (buffered log = plain log), C07 (follower step) — the refinement cluster -> abstract system is validated on simulated executions, not proved",
         "cluster simulator: real Raft objects and BufferedRaftLog; payload identity = CRC32 of the command bytes",
     ]
     run.assumptions += ["static membership; snapshot install / purge not exercised in the simulator (see C33)"]
-    return cluster.check_cluster_property(run, PROPS_FILE if HAVE else None, CONE, ORACLES, kills=False, node_level=False, quick=(200, 60), thorough=(2000, 90))
+    return cluster.check_cluster_property(run, PROPS_FILE if HAVE else None, CONE, ORACLES, kills=False, node_level=False, quick=(200, 60), thorough=(2000, 90), refine=True)
 
 def replay(path): return cluster.replay_cluster(path, ORACLES)
 
